@@ -22,6 +22,11 @@ CLAUSES = [
          "nodes/n.yml": cls("n", ["d1.x"])}),
     # nodes resolve relative to the root
     inv({"classes/a.yml": cls("a"), "classes/d/b.yml": cls("d.b"), "nodes/g/n.yml": cls("n", [".a", "..d.b", ".d.b"])}),
+    # node in a sub-directory with composed names: its own relative includes still resolve at the root
+    inv({"classes/app.yml": cls("app"), "classes/prod/app.yml": cls("prod.app"), "classes/other.yml": cls("other"),
+         "nodes/prod/web1.yml": cls("web1", ["other", ".app"])}, compose_node_name=True),
+    inv({"classes/app.yml": cls("app"), "nodes/prod/eu/web1.yml": cls("web1", [".app", "..app", "...app"])}, compose_node_name=True),
+    inv({"classes/app.yml": cls("app"), "nodes/_hid/web1.yml": cls("web1", [".app"]), "nodes/g/web2.yml": cls("web2", [".app"])}, compose_node_name=False),
     # relative name with a further dotted suffix
     inv({"classes/d1/a.yml": cls("d1.a", [".e.f"]), "classes/d1/e/f.yml": cls("d1.e.f"), "nodes/n.yml": cls("n", ["d1.a"])}),
 ]
@@ -48,7 +53,12 @@ class C15(InvProp):
             loc = r.choice([None, [], [r.choice(segs)], [r.choice(segs), r.choice(segs)], [r.choice(segs) for _ in range(r.range(3, 5))]])
             yield {"op": "abs", "loc": loc, "cls": "." * r.range(0, 7) + r.choice(["c", "c.d", "c.d.e", "", "_x", "a-b"])}
             c = GI.gen_inventory(r, n_classes=r.range(2, 6), shape=r.choice(["tree", "dag", "chain"]), nested=True,
-                                 relative=r.choice([60, 100]), n_nodes=1, init_classes=r.choice([0, 40]))
+                                 relative=r.choice([60, 100]), n_nodes=r.range(1, 2), init_classes=r.choice([0, 40]),
+                                 node_dirs=r.chance(2, 3), compose=r.chance(2, 3))
+            # nodes spell some of their includes relatively too (they resolve at the classes root)
+            for f in c["files"]:
+                if f["path"].startswith("nodes/"):
+                    f["content"]["classes"] = [("." * r.range(1, 3) + x) if (not x.startswith(".") and r.chance(1, 2)) else x for x in f["content"].get("classes", [])]
             yield c
             # absolute twin: same graph, relative=0  (same rng stream replayed)
             r2 = Rng(seed, "C15", i)
